@@ -5,6 +5,26 @@ PROPS = [json.loads(l) for l in open(os.path.join(VERIF, 'properties.jsonl'))]
 
 # pid -> (technique, level text, level note, design ref)
 CLAIMED = {
+ 'C13': ('Coq proof over a Gallina model of relation_paths / wn.taxonomy on an abstract hypernym graph (unbounded size, cycles '
+         'and self-loops included); model tied to the code by differential correspondence on every digraph up to the node bound',
+         'Theorems (closed under the global context): hypernym_paths = exactly the maximal simple chains, each once; termination '
+         'with fuel |V|+2 on every finite graph; min/max depth; common_hypernyms = intersection of ancestor sets; shortest_path is a '
+         'genuine undirected hypernym path of length min_c dist(a,c)+dist(b,c), symmetric, wn.Error iff nothing shared, always '
+         'connected with simulate_root; lowest_common_hypernyms symmetric and sorted. Partial: "greatest depth" and taxonomy_depth '
+         'are proved for acyclic graphs only (cyclic taxonomy_depth is refuted: known finding F12); roots/leaves and the '
+         'simulate_root distances are decided by correspondence + oracle only.',
+         'Trusted: Coq kernel + vm_compute; the recursive model of the agenda loop (validated exhaustively on all digraphs with '
+         '<= 3 (quick) / 4 (thorough) nodes); synset.hypernyms() is the model input; correspondence harness.',
+         'DESIGN.md section 5, C13'),
+ 'C15': ('Coq proof over a Gallina model of wn.ic.compute (rational weights, addition log); differential correspondence on '
+         'generated graphs x corpora with exactly representable weights',
+         'Theorems (closed under the global context): the agenda loop credits exactly the word synset and its ancestors, once each, '
+         'and terminates on cyclic graphs; closed forms of every synset weight and class total (conservation, unknown words '
+         'ignored); monotone up the taxonomy; probability in (0,1]; information content non-negative and antitone for any '
+         'antitone -log. ic.load and the satellite-adjective folding are decided by the oracle on the implementation.',
+         'Trusted: Coq kernel + vm_compute; floats modelled as exact rationals (generator restricted to exactly representable '
+         'sums, checked with Fraction); math.log abstract; wordnet.synsets(word) is a model input checked by the oracle.',
+         'DESIGN.md section 5, C15'),
  'C17': ('Coq proof over a Gallina model of Morphy using the rule table regenerated from wn/morphy.py; '
          'model tied to the code by differential correspondence (vm_compute) on generated lexicons/queries',
          'Theorems (closed under the global context) characterise Morphy.__call__ exactly for every rule table, word '
